@@ -85,7 +85,8 @@ def run_impl(case):
         # an earlier, unrelated query on the same network made in the other routing mode (A*), then back to the default: the default-mode answers are those of a fresh network
         from tracklib.core import Network
         net.setRoutingMethod(Network.ROUTING_ALGO_ASTAR)
-        net.shortest_path(case['src'], case['warm']); net.shortest_path(case['tgt'], case['src']); net.shortest_distance(case['warm'], case['tgt'])
+        w = case['warm'] if case['warm'] in net.NODES else case['src']
+        net.shortest_path(case['src'], w); net.shortest_path(case['tgt'], case['src']); net.shortest_distance(w, case['tgt'])
         net.setRoutingMethod(Network.ROUTING_ALGO_DIJKSTRA)
     S, T = case['src'], case['tgt']
     if case.get('desig') in ('getnode', 'fresh', 'other'):
